@@ -1078,7 +1078,7 @@ SET_OF_encode_uper(const asn_TYPE_descriptor_t *td,
         } else {
             may_encode =
                 uper_put_length(po, list->count - encoded_edx, &need_eom);
-            if(may_encode < 0) ASN__ENCODE_FAILED;
+            if(may_encode < 0) break;
         }
 
         for(edx = encoded_edx; edx < encoded_edx + may_encode; edx++) {
@@ -1088,9 +1088,10 @@ SET_OF_encode_uper(const asn_TYPE_descriptor_t *td,
                 break;
             }
         }
+        if(edx < encoded_edx + may_encode) break;   /* Output failed */
 
         if(need_eom && uper_put_length(po, 0, 0))
-            ASN__ENCODE_FAILED; /* End of Message length */
+            break; /* End of Message length */
 
         encoded_edx += may_encode;
     }
